@@ -65,6 +65,7 @@ partial def wVal : Val → List String
   | .num n =>
     -- decoded numbers carry the lexeme handed to `str::parse::<f64>` (bits = 2^64): `hsverif canon` evaluates it
     if n.v.bits = 2 ^ 64 then ["nl", H n.v.txt, HO n.unit]
+    else if n.v.bits = 2 ^ 64 + 1 then ["ns", H n.v.txt, HO n.unit]   -- reference reader: the decimal text itself
     else ["n", natHex n.v.bits 16, H n.v.txt, HO n.unit]
   | .str s => ["s", H s] | .uri s => ["u", H s] | .sym s => ["y", H s]
   | .ref id dis => ["r", H id, HO dis]
@@ -77,6 +78,7 @@ partial def wVal : Val → List String
     else ["T", toString t.secs, toString t.ns, toString t.off, H t.zone, H t.tzid, H t.txt]
   | .coord a b =>
     if a.bits = 2 ^ 64 then ["cl", H a.txt, H b.txt]
+    else if a.bits = 2 ^ 64 + 1 then ["cl", H a.txt, H b.txt]
     else ["c", natHex a.bits 16, H a.txt, natHex b.bits 16, H b.txt]
   | .list xs => ["[", toString xs.length] ++ (xs.toList.flatMap wVal)
   | .dict d => wTags d
